@@ -6,6 +6,7 @@ re-created by replay on a fresh world (live threads cannot be copied).
 from __future__ import annotations
 
 import hashlib
+import time
 
 from vf import simdist
 
@@ -41,19 +42,21 @@ def _mk(n, program, delivery, want_key=True):
 
 
 def explore(n, program, *, delivery='eager', oracle=None, outcome=None,
-            max_states=200000, invariant=None):
+            max_states=200000, invariant=None, max_seconds=None):
     """Exhaustive DFS over all reachable states (merged by World.key()).
 
     oracle(world) -> list[(kind, text)] evaluated in every terminal state;
     outcome(world) -> hashable digest of the observable end result.
     """
     res = Result()
+    t0 = time.time()
     seen = set()
     vec_hist = {}
     work = [((), None)]  # (prefix, expected key of the state before last)
     while work:
         prefix, expect = work.pop()
-        if res.states >= max_states:
+        if res.states >= max_states or (
+                max_seconds and time.time() - t0 > max_seconds):
             res.capped = True
             break
         w = _mk(n, program, delivery)
@@ -131,14 +134,16 @@ def explore(n, program, *, delivery='eager', oracle=None, outcome=None,
 
 
 def explore_bounded(n, program, *, bound, delivery='eager', oracle=None,
-                    outcome=None, max_exec=200000):
+                    outcome=None, max_exec=200000, max_seconds=None):
     """CHESS-style: all schedules with <= bound deviations from the base
     schedule (lowest enabled transition first).  Stateless."""
     res = Result()
+    t0b = time.time()
     work = [((), 0)]  # (forced choices as (position, transition), deviations)
     while work:
         forced, ndev = work.pop()
-        if res.executions >= max_exec:
+        if res.executions >= max_exec or (
+                max_seconds and time.time() - t0b > max_seconds):
             res.capped = True
             break
         forced_d = dict(forced)
